@@ -20,6 +20,12 @@ RULES = {
         ("C05-looptiling-no-dependence-analysis", r"^LoopTiling2DTrans\(", "known/C05-looptiling.txt"),
         ("C05-chunkloop-negative-step", r"^ChunkLoopTrans\(\d\)@L\d\|.*~negstep\|", "known/C05-chunkloop-negstep.txt"),
     ],
+    "C06": [
+        ("C06-arrayassign-overlap-or-stride", r"^ArrayAssignment2LoopsTrans@", "known/C06-arrayassign.txt"),
+        ("C06-matmul-lower-bounds", r"^Matmul2CodeTrans@", "known/C06-matmul.txt"),
+        ("C06-dotproduct-lower-bounds", r"^DotProduct2CodeTrans@", "known/C06-dotproduct.txt"),
+        ("C06-reduction2loop-drops-assignment", r"^(Minval|Maxval|Sum|Product)2LoopTrans@", "known/C06-reduction2loop.txt"),
+    ],
     "C08": [
         ("C08-integer-division-subscript", r"^carried-dependence:array:.*/ 2", "known/C08-intdiv.txt"),
         ("C08-conditional-scalar-write", r"^carried-dependence:scalar:.*\bcw", "known/C08-condwrite.txt"),
